@@ -9,6 +9,7 @@ import Bandit.Drv.ConfigLoad
 import Bandit.Drv.Cli
 import Bandit.Drv.Registry
 import Bandit.Drv.Inject
+import Bandit.Drv.Process
 /-!
 # Line-protocol driver: one JSON request per line on stdin, one JSON answer per line on stdout.
 -/
@@ -17,7 +18,7 @@ open Lean Bandit
 namespace Drv
 
 /-- all registered ops; each area appends its own list here -/
-def allOps : List Op := coreOps ++ MetricsOps.ops ++ Drv.BaselineTool.ops ++ Drv.Baseline.ops ++ Drv.Fmt.ops ++ Discovery.ops ++ Drv.Manager.ops ++ Drv.ConfigLoad.ops ++ CliOps.ops ++ Drv.Registry.ops ++ InjectOps.ops
+def allOps : List Op := coreOps ++ MetricsOps.ops ++ Drv.BaselineTool.ops ++ Drv.Baseline.ops ++ Drv.Fmt.ops ++ Discovery.ops ++ Drv.Manager.ops ++ Drv.ConfigLoad.ops ++ CliOps.ops ++ Drv.Registry.ops ++ InjectOps.ops ++ ProcessOps.ops
 
 def handle (line : String) : String :=
   match Json.parse line with
